@@ -197,25 +197,16 @@ fn faulted_run(initial: &std::sync::Arc<Image>, part: usize, cfg: &HistCfg, ops:
         let retryable = op.read_only() || matches!(op, Op::OpenDir { .. }) || matches!(op, Op::OpenFile { mode: embedded_sdmmc::Mode::ReadOnly, .. });
         if retryable {
             if let (Op::Read { fs, .. }, OpRes::Err(_)) = (op, &res) {
-                // a failed read may have advanced the offset, but only over bytes it really
-                // delivered: otherwise carrying on (or retrying) after the error skips data
-                if let (Some(h), Some(o), Some(OpRes::Ok(Out::Bytes(g)))) = (ex.files.get(*fs).cloned().flatten(), read_off, golden.get(i)) {
+                // the caller gets no byte count with an error: the failed read must have left the
+                // position where it found it, or the plain retry below skips part of the file
+                if let (Some(h), Some(o)) = (ex.files.get(*fs).cloned().flatten(), read_off) {
                     if let Ok(after) = ex.vm.offset(Fl::Raw, h) {
-                        let delta = after as i64 - o as i64;
-                        let buf = &ex.last_read_buf;
-                        let ok = delta >= 0 && (delta as usize) <= g.len() && (delta as usize) <= buf.len() && buf[..delta as usize] == g[..delta as usize];
-                        rep.count("failed_reads_offset_vs_delivered_bytes", 1);
-                        if !ok {
-                            rep.violate(v("C11.retry-differs", op.kind(), "offset advanced over bytes that were not delivered", format!("{} failed ({}) and left the offset at {} (was {}), but the first {} bytes of the caller's buffer are not the file's bytes at {}: a retry skips them", op.describe(), plan.label, after, o, delta, o), mk_case(i)));
+                        rep.count("failed_reads_offset_checked", 1);
+                        if after != o {
+                            rep.violate(v("C11.retry-differs", op.kind(), "failed read moved the file position", format!("{} failed ({}) and left the offset at {} (was {}): the error carries no byte count, so a retry cannot give the answer the failed call owed", op.describe(), plan.label, after, o), mk_case(i)));
                             return false;
                         }
                     }
-                }
-            }
-            if let Op::Read { fs, .. } = op {
-                // a failed read may have advanced the offset: put it back where it was
-                if let (Some(h), Some(o)) = (ex.files.get(*fs).cloned().flatten(), read_off) {
-                    let _ = ex.vm.seek_start(Fl::Raw, h, o);
                 }
             }
             let again = ex.exec(op);
